@@ -168,6 +168,40 @@ func (ls *lockstep) step(i int, b Block) error {
 			}
 		}
 	}
+	if len(b.Learn) > 0 {
+		for _, s := range b.Learn {
+			if s < 0 || s >= len(ls.f.Dead) || ls.f.Dead[s] {
+				return fmt.Errorf("case error: block %d: slot %d to be remembered is not live", i, s)
+			}
+		}
+		lh := ls.f.HashesOf(b.Learn)
+		lp := v.Proof(lh)
+		for _, in := range ls.insts {
+			if in.S != nil {
+				continue
+			}
+			var err error
+			partial := in.M != nil && !in.M.Full
+			switch {
+			case partial && b.LearnHow == "ingest":
+				in.ar.next()
+				err = in.M.Ingest(in.ar.hashes(lh), in.ar.proof(lp))
+			case partial && b.LearnHow == "vpp":
+				err = vppRemember(in.M, &in.ar, v, lp.Targets, lh)
+			case b.LearnHow == "verify" || b.LearnHow == "ingest" || b.LearnHow == "vpp":
+				in.ar.next()
+				err = in.Acc().Verify(in.ar.hashes(lh), in.ar.proof(lp), true)
+			default:
+				return fmt.Errorf("case error: block %d: learnhow %q", i, b.LearnHow)
+			}
+			if err != nil {
+				return fmt.Errorf("before block %d: %s: remembering the live slots %v (%s) with an honest proof failed: %v", i, in.Cfg, b.Learn, b.LearnHow, err)
+			}
+			if err := in.checkRoots(v); err != nil {
+				return fmt.Errorf("before block %d, after remembering slots %v (%s): %v", i, b.Learn, b.LearnHow, err)
+			}
+		}
+	}
 	for _, in := range ls.insts {
 		if err := in.Apply(adds, delH, proof); err != nil {
 			return fmt.Errorf("block %d: %s rejected a valid block: %v", i, in.Cfg, err)
